@@ -12,6 +12,7 @@ import (
 	"time"
 
 	"github.com/vicanso/pike/cache"
+	"github.com/vicanso/pike/compress"
 	"github.com/vicanso/pike/config"
 	"github.com/vicanso/pike/location"
 	"github.com/vicanso/pike/server"
@@ -36,6 +37,8 @@ type faultOrigin struct {
 	seen   map[string]int // path -> requests received
 	faulty map[string]bool
 	srv    *httptest.Server
+	// requests inside the /slow/ handler right now, and the most there ever were
+	inflight, maxInflight int
 }
 
 const condETag = "\"c1\""
@@ -87,6 +90,36 @@ func newFaultOrigin() *faultOrigin {
 					c.Close()
 				}
 			}
+		case strings.Contains(p, "/bigtext/"):
+			// an ordinary cacheable, compressible answer above the compress threshold
+			w.Header().Set("Cache-Control", "max-age=60")
+			w.Header().Set("Content-Type", "text/plain")
+			w.WriteHeader(200)
+			w.Write(bytes.Repeat([]byte("compressible text, line after line. "), 120))
+		case strings.Contains(p, "/bighdr/"):
+			// 12 KB of response headers (a long Content-Security-Policy, many Link lines)
+			w.Header().Set("Cache-Control", "no-store")
+			w.Header().Set("Content-Type", "image/png")
+			w.Header().Set("Content-Security-Policy", strings.Repeat("default-src 'self' https://cdn.example.test; ", 180))
+			for k := 0; k < 40; k++ {
+				w.Header().Add("Link", fmt.Sprintf("</style-%d.css>; rel=preload; as=style", k))
+			}
+			w.WriteHeader(200)
+			io.WriteString(w, "big-headers-body")
+		case strings.Contains(p, "/slow/"):
+			o.mu.Lock()
+			o.inflight++
+			if o.inflight > o.maxInflight {
+				o.maxInflight = o.inflight
+			}
+			o.mu.Unlock()
+			time.Sleep(400 * time.Millisecond)
+			o.mu.Lock()
+			o.inflight--
+			o.mu.Unlock()
+			w.Header().Set("Cache-Control", "no-store")
+			w.WriteHeader(200)
+			io.WriteString(w, "slow")
 		case strings.Contains(p, "/nobody/"):
 			// cacheable answers that carry no body at all
 			w.Header().Set("Cache-Control", "max-age=60")
@@ -158,13 +191,21 @@ func suiteFault(r *rng, n int) {
 	defer o.srv.Close()
 	cache.ResetDispatchers(nil)
 	cache.ResetDispatchers(withSibling(config.CacheConfig{Name: "c1", Size: 1000, HitForPass: "300s"}))
-	upstream.Reset([]config.UpstreamConfig{{Name: "u1", Servers: []config.UpstreamServerConfig{{Addr: o.srv.URL}}}})
+	// the operator has redefined the profile cached bodies are compressed with, with levels beyond what the codecs know
+	// (accepted by the validation): the encoders fall back to their defaults
+	compress.Reset([]config.CompressConfig{{Name: compress.BestCompression, Levels: map[string]uint{"gzip": 12, "br": 13}}})
+	upstream.Reset([]config.UpstreamConfig{
+		{Name: "u1", Servers: []config.UpstreamServerConfig{{Addr: o.srv.URL}}},
+		{Name: "ulc", Policy: "leastconn", Servers: []config.UpstreamServerConfig{{Addr: o.srv.URL}}},
+	})
 	waitUpstreamHealthy("u1")
+	waitUpstreamHealthy("ulc")
 	location.Reset([]config.LocationConfig{
 		{Name: "lt", Upstream: "u1", Prefixes: []string{"/t"}, ProxyTimeout: "5s"},
+		{Name: "llc", Upstream: "ulc", Prefixes: []string{"/lc"}},
 		{Name: "l1", Upstream: "u1"},
 	})
-	s := server.NewServer(server.ServerOption{Addr: "127.0.0.1:0", Locations: []string{"lt", "l1"}, Cache: "c1", CompressMinLength: 1024})
+	s := server.NewServer(server.ServerOption{Addr: "127.0.0.1:0", Locations: []string{"lt", "llc", "l1"}, Cache: "c1", CompressMinLength: 1024})
 	started := false
 	for attempt := 0; attempt < 5 && !started; attempt++ {
 		if err := s.Start(true); err == nil {
@@ -223,7 +264,47 @@ func suiteFault(r *rng, n int) {
 	for i := 0; i < n; i++ {
 		cr := r.fork(uint64(i))
 		pre := cr.pick([]string{"", "/t"}) // without / with a proxy timeout on the location
-		switch i % 6 {
+		switch i % 9 {
+		case 6:
+			// a plain cacheable text answer while the best-compression profile carries out-of-range levels
+			p := fmt.Sprintf("%s/bigtext/%d", pre, i)
+			old := client.Timeout
+			client.Timeout = 6 * time.Second
+			r1 := do("GET", p, nil)
+			r2 := do("GET", p, nil)
+			client.Timeout = old
+			emit("fault", "bigtext", "=>", itoa(int64(r1.code)), itoa(r1.ms), hx(r1.xs), itoa(int64(r2.code)), itoa(r2.ms), hx(r2.xs), itoa(int64(o.count(p))))
+			stat("bigtext")
+			if r1.code == -2 || r2.code == -2 {
+				flush()
+				return
+			}
+		case 7:
+			p := fmt.Sprintf("%s/bighdr/%d", pre, i)
+			r1 := do(cr.pick([]string{"GET", "POST"}), p, nil)
+			emit("fault", "bighdr", "=>", itoa(int64(r1.code)), itoa(int64(r1.n)))
+			stat("bighdr")
+		case 8:
+			// three passed requests at once through an upstream with the policy of its choice: each is forwarded on its
+			// own, none waits for another (the origin holds each for 400 ms and counts how many it holds at a time)
+			loc := cr.pick([]string{"/lc", ""})
+			o.mu.Lock()
+			o.maxInflight = 0
+			o.mu.Unlock()
+			var wg sync.WaitGroup
+			for k := 0; k < 3; k++ {
+				wg.Add(1)
+				go func(k int) {
+					defer wg.Done()
+					do("POST", fmt.Sprintf("%s/slow/%d/%d", loc, i, k), nil)
+				}(k)
+			}
+			wg.Wait()
+			o.mu.Lock()
+			mx := o.maxInflight
+			o.mu.Unlock()
+			emit("fault", "concurrent", hx(loc), "=>", itoa(int64(mx)))
+			stat("concurrent" + loc)
 		case 4:
 			// cacheable answers without a body: stored like any other (a burst costs one upstream request)
 			kind := cr.pick([]string{"head", "cl0", "204", "301"})
@@ -239,8 +320,9 @@ func suiteFault(r *rng, n int) {
 		case 5:
 			// an origin whose body is not what its Content-Encoding says: whatever the client is told, the fetch ENDS,
 			// and so do the requests that follow (the key is not left in the fetching state)
-			enc := cr.pick([]string{"gzip", "br", "lz4", "zst", "snz"})
-			cut := cr.pick([]string{"junk", "cut"})
+			// (every encoding × {junk, cut} in turn)
+			enc := []string{"gzip", "br", "lz4", "zst", "snz"}[(i/9)%5]
+			cut := []string{"junk", "cut"}[(i/45)%2]
 			extra = http.Header{"Accept-Encoding": []string{cr.pick([]string{"identity", "br", "gzip"})}}
 			p := fmt.Sprintf("%s/badenc/%d/%s/%s", pre, i, cut, enc)
 			old := client.Timeout
